@@ -98,6 +98,12 @@ def run_cases(run, scs, judge, arity, mode="phase"):
         if "obs" not in o:
             run.violation("corr:%s/harness error or panic" % run.pid, {"correspondence": "harness", "scenario": sc, "out": o}, False)
             continue
+        if o["obs"].get("other_writes"):
+            # a write on a member that is neither an apply, a release patch nor a delete: for C11 this is a write
+            # outside / before the preflight gate; for the other properties the model's event language is left
+            run.violation("%s member written through a request the reconcilers never use (%s)" % (run.pid, o["obs"]["other_writes"][0].split()[0]),
+                          {"scenario": sc, "impl": o["obs"]}, run.pid == "C11")
+            continue
         try:
             terms.append(pl.c_case(sc, o["obs"]))
             idx.append(i)
